@@ -25,6 +25,14 @@ CLAIMED = {
         design_ref="DESIGN.md §2 C02",
         engine="p-stm",
     ),
+    "C06": dict(
+        category="exploration",
+        text="Non-empty subsets of 12 KES-certified fixture signers with generated stakes (incl. equal stakes) and parameters; three independent permutations of the registration order. The aggregate key is computed by the mithril-stm library under two arrival orders, by SignerBuilder (the path signer and aggregator nodes use) on the JSON round-tripped signer list, and by the client's MessageBuilder on the JSON round-tripped stake-distribution message; the key itself goes through json-hex and bytes round trips; one party's node-path signer signs and its slot and signature are checked against the library path; total stake = sum; removing a party, stake +-1 or swapping two unequal stakes must change the key. A differential between independent computation paths under generated orders is exactly what the statement quantifies over.",
+        note="Key material: the repository's deterministic fixture builder (12 certified signers); shared-prefix BLS keys cannot be manufactured. The aggregator/signer services that wrap SignerBuilder are exercised end-to-end by C14/C20, not here.",
+        technique="property-based testing: differential between computation paths and registration orders + metamorphic distinctness (proptest)",
+        design_ref="DESIGN.md §2 C06",
+        engine="p-stm",
+    ),
     "C08": dict(
         category="exploration",
         text="The working tree's eligibility.rs is compiled into the harness (path inclusion) and compared on 20k generated (phi, stake, total, draw) tuples with an exact reference: fixed-point interval arithmetic (704 fractional bits, directed rounding, rigorous Taylor remainder) around e^x, with draws concentrated at threshold +- 2^s; 8k monotonicity pairs (stake grows / draw shrinks) at every distance down to +-1; 1k public-API worlds where the signer's claimed index set and the verifier's verdicts are compared with the reference on the real Blake2b draws. A differential against an exact reference with threshold-concentrated inputs is the strongest decision this family offers for a numeric comparison; it found and (after repair) guards a genuine defect.",
